@@ -224,7 +224,17 @@ impl<'a, S: System> Shared<'a, S> {
                 match parent.as_ref().unwrap().try_clone() {
                     Some(s) => s,
                     None => match rebuild_checked(self.fresh, choices) {
-                        Ok(s) => s,
+                        Ok(s) => {
+                            // The rebuilt state must offer the same letter at this index: a subject whose
+                            // property-irrelevant choices depend on hash-map order (which of several matching facts a
+                            // rule retracts) can reach a different state on re-execution, where `op` is not enabled.
+                            let menu = s.enabled();
+                            if menu.len() != ops.len() || menu.get(i).map(|o| format!("{:?}", o)) != Some(format!("{:?}", op)) {
+                                rep.count("rebuilt_state_offers_other_menu_skipped", 1);
+                                continue;
+                            }
+                            s
+                        }
                         Err((d, m)) => {
                             if !cfg.tolerate_divergent_replay {
                                 machinery(&format!("divergent replay: prefix step {} of {:?} failed on rebuild: {} {}", d, choices, m.class, m.detail));
@@ -247,7 +257,8 @@ impl<'a, S: System> Shared<'a, S> {
                 Err(m) => {
                     let mut ch = choices.clone();
                     ch.push(i as u16);
-                    let ops_r = render(self.fresh, &ch);
+                    let mut ops_r = render(self.fresh, choices);
+                    ops_r.push(format!("{:?}", op));
                     rep.violation(Violation {
                         class: m.class,
                         detail: m.detail,
@@ -537,17 +548,28 @@ pub fn closure<S: System>(fresh: &(dyn Fn() -> S + Sync), cfg: &Config) -> Repor
     rep
 }
 
+/// The rendered operations of the case being replayed (set by props::replay from the case file): a replay step whose
+/// menu entry renders differently belongs to another state and is not executed.
+pub static EXPECTED_HISTORY: Mutex<Option<Vec<String>>> = Mutex::new(None);
+
 /// Replay a recorded case (list of choices) twice; both runs must give the same verdict.
 /// Replay up to `n` times; the first failing run is the verdict (for outcomes that depend on hash order).
 pub fn replay_repeated<S: System>(fresh: &(dyn Fn() -> S + Sync), choices: &[u16], n: usize) -> Result<Vec<String>, (Vec<String>, Mismatch)> {
     let mut last = Ok(vec![]);
+    let expected: Option<Vec<String>> = EXPECTED_HISTORY.lock().unwrap().clone();
     for _ in 0..n.max(1) {
         let mut s = fresh();
         let mut hist = Vec::new();
         let mut failed = None;
-        for &c in choices {
+        for (d, &c) in choices.iter().enumerate() {
             let ops = s.enabled();
             let Some(op) = ops.get(c as usize) else { break };
+            if let Some(e) = expected.as_ref().and_then(|e| e.get(d)) {
+                if *e != format!("{:?}", op) {
+                    // this run reached a state with another menu (hash-order dependent subject): not the recorded case
+                    break;
+                }
+            }
             hist.push(format!("{:?}", op));
             let r = catch_unwind(AssertUnwindSafe(|| s.step(op)));
             let r = match r {
